@@ -1,19 +1,225 @@
 package backend
 
 import (
-	"errors"
+	"context"
+	"fmt"
+	"net"
+	"strconv"
+	"strings"
+	"testing/synctest"
+	"time"
 
 	"verifharness/sim"
 
 	"github.com/acquirecloud/golibs/kvs"
+	golibskvspb "github.com/acquirecloud/golibs/kvs/genproto/golibskvspb/v1"
+	gredis "github.com/acquirecloud/golibs/kvs/redis"
+	"github.com/acquirecloud/golibs/zsimrt"
+	"github.com/alicebob/miniredis/v2"
+	"github.com/go-redis/redis/v8"
+	"google.golang.org/protobuf/proto"
 )
 
-// placeholder until the simulated Redis transport is in place
-type redisWorld struct{}
+// redisWorld: the real kvs/redis client code and the real go-redis client
+// against an in-process miniredis. The TCP listener is closed at once; every
+// connection is a pair of net.Pipe()s with two pump goroutines in between
+// that park before delivering each command and each reply, so the scheduler
+// decides the interleaving of commands of different connections (DESIGN 2.6).
+type redisWorld struct {
+	e       *sim.Env
+	m       *miniredis.Miniredis
+	clients map[int]kvs.Storage
+	last    time.Time
+	conns   []net.Conn
+	nconn   int
+	cmds    int64
+}
 
 func newRedisWorld(e *sim.Env, c *sim.Case) (*redisWorld, error) {
-	return nil, errors.New("redis backend not built yet")
+	m := miniredis.NewMiniRedis()
+	if err := m.Start(); err != nil {
+		return nil, err
+	}
+	// closes the TCP listener only; the command table stays, ServeConn works
+	m.Server().Close()
+	m.Seed(1)
+	now := time.Now()
+	m.SetTime(now)
+	return &redisWorld{e: e, m: m, clients: map[int]kvs.Storage{}, last: now}, nil
 }
-func (r *redisWorld) client(i int) kvs.Storage            { return nil }
-func (r *redisWorld) peek(key string) (kvs.Record, bool) { return kvs.Record{}, false }
-func (r *redisWorld) close()                              {}
+
+func (rw *redisWorld) syncClock() {
+	now := time.Now()
+	if d := now.Sub(rw.last); d > 0 {
+		rw.m.FastForward(d)
+		rw.m.SetTime(now)
+		rw.last = now
+	}
+}
+
+func (rw *redisWorld) client(i int) kvs.Storage {
+	if c, ok := rw.clients[i]; ok {
+		return c
+	}
+	opts := &redis.Options{
+		Addr:               "sim",
+		Dialer:             rw.dial,
+		MaxRetries:         -1,
+		ReadTimeout:        -1,
+		WriteTimeout:       -1,
+		DialTimeout:        10000 * time.Hour,
+		PoolTimeout:        10000 * time.Hour,
+		IdleTimeout:        -1,
+		IdleCheckFrequency: -1,
+		PoolSize:           16,
+	}
+	c := gredis.New(opts)
+	rw.clients[i] = c
+	return c
+}
+
+func (rw *redisWorld) dial(ctx context.Context, network, addr string) (net.Conn, error) {
+	c1, c2 := net.Pipe()
+	p1, p2 := net.Pipe()
+	rw.m.Server().ServeConn(p2)
+	rw.nconn++
+	id := rw.nconn
+	rw.conns = append(rw.conns, c1, c2, p1, p2)
+	rw.e.Probe("redis_connections")
+	zsimrt.Go("pump:c2s", func() { rw.pumpC2S(id, c2, p1) })
+	zsimrt.Go("pump:s2c", func() { rw.pumpS2C(id, p1, c2) })
+	return c1, nil
+}
+
+// parseCommand splits one RESP array (a command) off the front of b.
+func parseCommand(b []byte) (cmd []byte, rest []byte, name string, ok bool) {
+	if len(b) == 0 || b[0] != '*' {
+		return nil, b, "", false
+	}
+	i := indexCRLF(b, 0)
+	if i < 0 {
+		return nil, b, "", false
+	}
+	n, err := strconv.Atoi(string(b[1:i]))
+	if err != nil {
+		return nil, b, "", false
+	}
+	pos := i + 2
+	for k := 0; k < n; k++ {
+		if pos >= len(b) || b[pos] != '$' {
+			return nil, b, "", false
+		}
+		j := indexCRLF(b, pos)
+		if j < 0 {
+			return nil, b, "", false
+		}
+		l, err := strconv.Atoi(string(b[pos+1 : j]))
+		if err != nil {
+			return nil, b, "", false
+		}
+		start := j + 2
+		if start+l+2 > len(b) {
+			return nil, b, "", false
+		}
+		if k == 0 {
+			name = strings.ToUpper(string(b[start : start+l]))
+		}
+		pos = start + l + 2
+	}
+	return b[:pos], b[pos:], name, true
+}
+
+func indexCRLF(b []byte, from int) int {
+	for i := from; i+1 < len(b); i++ {
+		if b[i] == '\r' && b[i+1] == '\n' {
+			return i
+		}
+	}
+	return -1
+}
+
+func (rw *redisWorld) pumpC2S(id int, from, to net.Conn) {
+	buf := make([]byte, 65536)
+	var acc []byte
+	for {
+		n, err := from.Read(buf)
+		if err != nil {
+			// the client side is gone; tell the server in a step of its own, so
+			// that it never races with a reply the server is still producing
+			zsimrt.Yield("net:c2s:close")
+			to.Close()
+			return
+		}
+		acc = append(acc, buf[:n]...)
+		for {
+			cmd, rest, name, ok := parseCommand(acc)
+			if !ok {
+				break
+			}
+			acc = append([]byte(nil), rest...)
+			zsimrt.Yield("net:c2s:" + name)
+			rw.syncClock()
+			rw.cmds++
+			rw.e.Logf("redis conn%d <- %s", id, name)
+			if _, err := to.Write(cmd); err != nil {
+				zsimrt.Yield("net:c2s:close")
+				from.Close()
+				return
+			}
+		}
+	}
+}
+
+func (rw *redisWorld) pumpS2C(id int, from, to net.Conn) {
+	buf := make([]byte, 65536)
+	for {
+		n, err := from.Read(buf)
+		if err != nil {
+			zsimrt.Yield("net:s2c:close")
+			to.Close()
+			return
+		}
+		chunk := append([]byte(nil), buf[:n]...)
+		zsimrt.Yield("net:s2c")
+		if _, err := to.Write(chunk); err != nil {
+			zsimrt.Yield("net:s2c:close")
+			from.Close()
+			return
+		}
+	}
+}
+
+func redisKey(key string) string {
+	for len(key) > 0 && key[0] == '/' {
+		key = key[1:]
+	}
+	return fmt.Sprintf("/kvs/%s", key)
+}
+
+func (rw *redisWorld) peek(key string) (kvs.Record, bool) {
+	rw.syncClock()
+	s, err := rw.m.Get(redisKey(key))
+	if err != nil {
+		return kvs.Record{}, false
+	}
+	var r golibskvspb.Record
+	if err := proto.Unmarshal([]byte(s), &r); err != nil {
+		return kvs.Record{}, false
+	}
+	rec := gredis.ProtoRecord2Record(&r)
+	rec.Key = key
+	return rec, true
+}
+
+func (rw *redisWorld) close() {
+	for _, c := range rw.clients {
+		if cl, ok := c.(interface{ Close() error }); ok {
+			cl.Close()
+		}
+	}
+	for _, c := range rw.conns {
+		c.Close()
+	}
+	synctest.Wait()
+	rw.m.Close()
+}
